@@ -637,11 +637,23 @@ def build_request(rllen, fields, body=b""):
     rl = b"GET /" + b"a" * pad + b" HTTP/1.1"
     lines = [rl]
     for i, (kind, ln) in enumerate(fields):
-        name = {"plain": b"X-F%d" % i, "under": b"X_F%d" % i, "cl": b"Content-Length", "wscolon": b"X-W%d" % i, "fold": b"X-O"}[kind]
+        name = {"plain": b"X-F%d" % i, "under": b"X_F%d" % i, "cl": b"Content-Length", "wscolon": b"X-W%d" % i, "fold": b"X-O", "foldblank": b"X-P", "foldpad": b"X-P"}[kind]
         if kind == "fold":
             # one field folded over ln + 1 physical lines (obsolete line folding, accepted with permit_obsolete_folding)
             lines.append(b"X-O%d: v" % i)
             lines += [b" c%d" % j for j in range(ln)]
+            continue
+        if kind in ("foldblank", "foldpad"):
+            # one folded field of ln bytes in all (CRLFs between its lines included) whose size comes from continuation lines
+            # that are blank (foldblank) or padded with blanks around one letter (foldpad)
+            first = b"X-P%d: v" % i
+            rest = ln - len(first)
+            lines.append(first)
+            while rest > 2:
+                k = min(48, rest - 2)            # a continuation line of k bytes costs k + 2
+                k = max(k, 1)
+                lines.append(b" " * k if kind == "foldblank" else (b" " * (k // 2) + b"x" + b" " * (k - k // 2 - 1) if k > 1 else b" "))
+                rest -= k + 2
             continue
         if kind == "wscolon":
             # a field that is long only through blanks between its name and the colon (accepted, and stripped, with the
@@ -687,7 +699,13 @@ def limit_record(ctx, cfgkw, rllen, fields, cuts_kind, rng, body=b"", proxy=Fals
     obs = drv.run(data, cuts, cfg=cfg, mode="read", source="sock" if cuts_kind == "8k" else "iter")
     phys = plain.split(b"\r\n\r\n")[0].split(b"\r\n")
     # a field = a line that does not start with SP / HTAB (continuation lines belong to the field above them)
-    lens = [len(phys[0])] + [len(x) for x in phys[1:] if not x[:1] in (b" ", b"\t")]
+    # (its size: all its physical lines, with the CRLFs between them)
+    lens = [len(phys[0])]
+    for x in phys[1:]:
+        if x[:1] in (b" ", b"\t") and len(lens) > 1:
+            lens[-1] += len(x) + 2
+        else:
+            lens.append(len(x))
     ev = {"e": "limit", "cfg": eff_limits(cfgkw.get("limit_request_line", 4094),
                                          cfgkw.get("limit_request_fields", 100),
                                          cfgkw.get("limit_request_field_size", 8190)),
@@ -845,6 +863,13 @@ def c12(ctx):
             for ck in ("whole", "rand"):
                 add(*limit_record(ctx, {"limit_request_fields": F, "permit_obsolete_folding": True}, 14,
                                   [("plain", 12), ("fold", nfold), ("plain", 12)], ck, rng))
+    # folded fields whose size comes from blank or padded continuation lines: the limit is about the bytes on the wire
+    for S in (100, 300):
+        for d in (-40, -2, 0, 1, 3, 60, 900):
+            for kind in ("foldblank", "foldpad"):
+                for ck in ("whole", "rand"):
+                    add(*limit_record(ctx, {"limit_request_field_size": S, "permit_obsolete_folding": True}, 14,
+                                      [("plain", 12), (kind, S - 2 + d), ("plain", 12)], ck, rng))
     # fields whose size comes from whitespace before the colon, with strip_header_spaces on
     for S in (32, 64, 200):
         for d in (-3, -1, 0, 1, 2, 30, 400):
